@@ -63,5 +63,7 @@ for s in sorted(d for d in os.listdir(f"{V}/seeded") if re.match(r"C\d\d[a-z]$",
     stab += f"| {s} | {summ} ({files}) | {caught(s)} |\n"
 
 tail = tail.replace("@@FIXED@@", ftab).replace("@@SEEDS@@", stab)
+nseeds = len([d for d in os.listdir(f"{V}/seeded") if re.match(r"C\d\d[a-z]$", d)])
+head = head.replace("@@NFIX@@", str(sum(len(v) for v in fixed.values()))).replace("@@NSEEDS@@", str(nseeds))
 open(f"{V}/DESIGN.md", "w").write(head + body + tail)
 print("DESIGN.md", len((head + body + tail).split("\n")), "lines")
